@@ -240,3 +240,81 @@ Proof. vm_compute. reflexivity. Qed.
    (w, n) = (2,1), (2,2), (3,2), (2,3) in both build modes *)
 Example C18_premises_hold_on_small_configs : deps_check_all = true.
 Proof. exact deps_check_all_ok. Qed.
+(* ==== glue tie, round 2 (text written by tools/mk_gluetie.py; keep at the END of the file) ==== *)
+(* ---- tie to the source, second round: the non-loop functions (the num_traits forwarders of src/int/numtraits.rs: Bounded, Zero, One, Checked* / Wrapping* / Saturating* / Overflowing* (the 13 num_trait_impl! expansions included), CheckedEuclid, Euclid, Pow, MulAdd) REGENERATED from /repo/src on every run
+   (Generated/Glue.v, tools/rs2v_glue.py) are the model's, function by function, for every digit width, digit count,
+   build mode and operand (no well-formedness hypothesis): an edit of the source that changes what one of these
+   functions computes or delegates to breaks this theorem ---- *)
+From Bnum.Model Require Import Digit Core Shift AddSub Mul Div Bits Pow.
+From Bnum.Model Require Ops NumTraits.
+From Bnum.Generated Require Import Glue.
+From Bnum.Proofs Require Import GlueTieCommon GlueTieC18.
+Theorem C18_glue_rs_matches_model :
+  (forall w a, Glue.U_CheckedNeg_checked_neg w a = NumTraits.TU_checked_neg a) /\
+  (forall w a k, Glue.U_CheckedShl_checked_shl w a k = NumTraits.TU_checked_shl w a k) /\
+  (forall w a k, Glue.U_CheckedShr_checked_shr w a k = NumTraits.TU_checked_shr w a k) /\
+  (forall w a b, Glue.U_CheckedEuclid_checked_div_euclid w a b = NumTraits.TU_checked_div_euclid w a b) /\
+  (forall w a b, Glue.U_CheckedEuclid_checked_rem_euclid w a b = NumTraits.TU_checked_rem_euclid w a b) /\
+  (forall w a b, Glue.U_Euclid_div_euclid w a b = NumTraits.TU_div_euclid w a b) /\
+  (forall w a b, Glue.U_Euclid_rem_euclid w a b = NumTraits.TU_rem_euclid w a b) /\
+  (forall w a, Glue.U_WrappingNeg_wrapping_neg w a = NumTraits.TU_wrapping_neg w a) /\
+  (forall w a k, Glue.U_WrappingShl_wrapping_shl w a k = NumTraits.TU_wrapping_shl w a k) /\
+  (forall w a k, Glue.U_WrappingShr_wrapping_shr w a k = NumTraits.TU_wrapping_shr w a k) /\
+  (forall dbg w a k, Glue.U_Pow_pow dbg w a k = NumTraits.TU_pow dbg w a k) /\
+  (forall w a b, Glue.U_Saturating_saturating_add w a b = NumTraits.TU_saturating_add w a b) /\
+  (forall w a b, Glue.U_Saturating_saturating_sub w a b = NumTraits.TU_saturating_sub w a b) /\
+  (forall dbg w a b c, Glue.U_MulAdd_mul_add dbg w a b c = NumTraits.TU_mul_add dbg w a b c) /\
+  (forall w a b, Glue.U_CheckedAdd_checked_add w a b = NumTraits.TU_checked_add w a b) /\
+  (forall w a b, Glue.U_CheckedDiv_checked_div w a b = NumTraits.TU_checked_div w a b) /\
+  (forall w a b, Glue.U_CheckedMul_checked_mul w a b = NumTraits.TU_checked_mul w a b) /\
+  (forall w a b, Glue.U_CheckedRem_checked_rem w a b = NumTraits.TU_checked_rem w a b) /\
+  (forall w a b, Glue.U_CheckedSub_checked_sub w a b = NumTraits.TU_checked_sub w a b) /\
+  (forall w a b, Glue.U_SaturatingAdd_saturating_add w a b = NumTraits.TU_saturating_add w a b) /\
+  (forall w a b, Glue.U_SaturatingMul_saturating_mul w a b = NumTraits.TU_saturating_mul w a b) /\
+  (forall w a b, Glue.U_SaturatingSub_saturating_sub w a b = NumTraits.TU_saturating_sub w a b) /\
+  (forall w a b, Glue.U_WrappingAdd_wrapping_add w a b = NumTraits.TU_wrapping_add w a b) /\
+  (forall w a b, Glue.U_WrappingMul_wrapping_mul w a b = NumTraits.TU_wrapping_mul w a b) /\
+  (forall w a b, Glue.U_WrappingSub_wrapping_sub w a b = NumTraits.TU_wrapping_sub w a b) /\
+  (forall w a b, Glue.U_OverflowingAdd_overflowing_add w a b = NumTraits.TU_overflowing_add w a b) /\
+  (forall w a b, Glue.U_OverflowingSub_overflowing_sub w a b = NumTraits.TU_overflowing_sub w a b) /\
+  (forall w a, Glue.I_CheckedNeg_checked_neg w a = NumTraits.TI_checked_neg w a) /\
+  (forall w a k, Glue.I_CheckedShl_checked_shl w a k = NumTraits.TI_checked_shl w a k) /\
+  (forall w a k, Glue.I_CheckedShr_checked_shr w a k = NumTraits.TI_checked_shr w a k) /\
+  (forall dbg w a b, Glue.I_CheckedEuclid_checked_div_euclid dbg w a b = NumTraits.TI_checked_div_euclid dbg w a b) /\
+  (forall dbg w a b, Glue.I_CheckedEuclid_checked_rem_euclid dbg w a b = NumTraits.TI_checked_rem_euclid dbg w a b) /\
+  (forall dbg w a b, Glue.I_Euclid_div_euclid dbg w a b = NumTraits.TI_div_euclid dbg w a b) /\
+  (forall dbg w a b, Glue.I_Euclid_rem_euclid dbg w a b = NumTraits.TI_rem_euclid dbg w a b) /\
+  (forall w a, Glue.I_WrappingNeg_wrapping_neg w a = NumTraits.TI_wrapping_neg w a) /\
+  (forall w a k, Glue.I_WrappingShl_wrapping_shl w a k = NumTraits.TI_wrapping_shl w a k) /\
+  (forall w a k, Glue.I_WrappingShr_wrapping_shr w a k = NumTraits.TI_wrapping_shr w a k) /\
+  (forall dbg w a k, Glue.I_Pow_pow dbg w a k = NumTraits.TI_pow dbg w a k) /\
+  (forall w a b, Glue.I_Saturating_saturating_add w a b = NumTraits.TI_saturating_add w a b) /\
+  (forall w a b, Glue.I_Saturating_saturating_sub w a b = NumTraits.TI_saturating_sub w a b) /\
+  (forall dbg w a b c, Glue.I_MulAdd_mul_add dbg w a b c = NumTraits.TI_mul_add dbg w a b c) /\
+  (forall w a b, Glue.I_CheckedAdd_checked_add w a b = NumTraits.TI_checked_add w a b) /\
+  (forall dbg w a b, Glue.I_CheckedDiv_checked_div dbg w a b = NumTraits.TI_checked_div dbg w a b) /\
+  (forall w a b, Glue.I_CheckedMul_checked_mul w a b = NumTraits.TI_checked_mul w a b) /\
+  (forall dbg w a b, Glue.I_CheckedRem_checked_rem dbg w a b = NumTraits.TI_checked_rem dbg w a b) /\
+  (forall w a b, Glue.I_CheckedSub_checked_sub w a b = NumTraits.TI_checked_sub w a b) /\
+  (forall w a b, Glue.I_SaturatingAdd_saturating_add w a b = NumTraits.TI_saturating_add w a b) /\
+  (forall w a b, Glue.I_SaturatingMul_saturating_mul w a b = NumTraits.TI_saturating_mul w a b) /\
+  (forall w a b, Glue.I_SaturatingSub_saturating_sub w a b = NumTraits.TI_saturating_sub w a b) /\
+  (forall w a b, Glue.I_WrappingAdd_wrapping_add w a b = NumTraits.TI_wrapping_add w a b) /\
+  (forall w a b, Glue.I_WrappingMul_wrapping_mul w a b = NumTraits.TI_wrapping_mul w a b) /\
+  (forall w a b, Glue.I_WrappingSub_wrapping_sub w a b = NumTraits.TI_wrapping_sub w a b) /\
+  (forall w a b, Glue.I_OverflowingAdd_overflowing_add w a b = NumTraits.TI_overflowing_add w a b) /\
+  (forall w a b, Glue.I_OverflowingSub_overflowing_sub w a b = NumTraits.TI_overflowing_sub w a b) /\
+  (forall w n, Glue.U_Bounded_min_value w n = NumTraits.TU_min_value n) /\
+  (forall w n, Glue.U_Bounded_max_value w n = NumTraits.TU_max_value w n) /\
+  (forall w n, Glue.I_Bounded_min_value w n = NumTraits.TI_min_value w n) /\
+  (forall w n, Glue.I_Bounded_max_value w n = NumTraits.TI_max_value w n) /\
+  (forall w n, Glue.U_One_one w n = NumTraits.T_one n) /\
+  (forall w n, Glue.I_One_one w n = NumTraits.T_one n) /\
+  (forall w n, Glue.U_Zero_zero w n = NumTraits.T_zero n) /\
+  (forall w n, Glue.I_Zero_zero w n = NumTraits.T_zero n) /\
+  (forall w a, Glue.U_One_is_one w a = NumTraits.T_is_one a) /\
+  (forall w a, Glue.I_One_is_one w a = NumTraits.T_is_one a) /\
+  (forall w a, Glue.U_Zero_is_zero w a = NumTraits.T_is_zero a) /\
+  (forall w a, Glue.I_Zero_is_zero w a = NumTraits.T_is_zero a).
+Proof. exact glue_numtraits_matches_model. Qed.
+Print Assumptions C18_glue_rs_matches_model.
